@@ -160,3 +160,66 @@ Definition ct_src (mx : Z) (hist : list ct_event) (k : key) (m : msg) (s x : Z) 
      ((s = s0 /\ x = s0 + msg_lifetime mx m) \/
       (s = unix_floor s0 /\ x = unix_floor (s0 + msg_lifetime mx m)))) \/
   (exists now s0 x0 nx, In (CtForeign now s0 x0 k m nx) hist /\ s = unix_floor s0 /\ x = unix_floor x0).
+
+(* ------------------------------------------------------------------ round 4: the configuration without a memory cache *)
+(* [hm] = a memory backend is configured (cache.mem_size > 0).  With hm = false cacheCtl has only the redis backend:
+   Store returns early under the same conditions (nil / truncated response, pack failure) and otherwise only queues the
+   SET [NX] PX; Get asks redis and has nothing to promote into.  hm = true is the two-tier system above. *)
+Definition ctc_store (hm : bool) (mx : Z) (st : ct_state) (t eps : Z) (k : key) (resp : option msg) (packok : bool)
+  : ct_state * out :=
+  if hm then ct_store mx st t eps k resp packok
+  else
+    match resp with
+    | None => (st, OSkipped)
+    | Some m =>
+      if h_tc (m_hdr m) then (st, OSkipped)
+      else if negb packok then (st, OSkipped)
+      else (mkCt (ct_mem st) (redis_set (ct_red st) (t + eps) t (t + msg_lifetime mx m) k m (negative m)),
+            OStored (msg_lifetime mx m))
+    end.
+
+Definition ctc_get (hm : bool) (st : ct_state) (t : Z) (k : key) : ct_state * out :=
+  if hm then ct_get st t k
+  else
+    match ct_rfind k (ct_red st) with
+    | Some e =>
+      if t <? re_dead e
+      then (st, OHit (subtract_ttl (elapsed_secs t (re_stored e)) (re_msg e)) (re_stored e) (re_expire e))
+      else (mkCt (ct_mem st) (ct_rremove k (ct_red st)), OMiss)
+    | None => (st, OMiss)
+    end.
+
+Definition ctc_step (hm : bool) (mx : Z) (st : ct_state) (ev : ct_event) : ct_state * out :=
+  match ev with
+  | CtStore t eps k resp packok => ctc_store hm mx st t eps k resp packok
+  | CtGet t k => ctc_get hm st t k
+  | _ => ct_step mx st ev
+  end.
+
+Fixpoint ctc_run (hm : bool) (mx : Z) (st : ct_state) (evs : list ct_event) : ct_state * list out :=
+  match evs with
+  | [] => (st, [])
+  | ev :: evs' =>
+    let '(st1, o) := ctc_step hm mx st ev in
+    let '(st2, os) := ctc_run hm mx st1 evs' in
+    (st2, o :: os)
+  end.
+
+(* what a Store of an error response (rcode <> 0: stored set-if-absent in BOTH tiers) may do: the memory tier is left alone
+   when it holds a node for the key (live, or expired and not yet collected); the redis tier is left alone when it holds
+   a live value for the key *)
+Definition ct_neg_keeps (hm : bool) (mx : Z) (st : ct_state) (ev : ct_event) (st1 : ct_state) : Prop :=
+  match ev with
+  | CtStore t eps k (Some m) pk =>
+      negative m = true ->
+      (forall e, cp_find k (st_map (ct_mem st)) = Some e -> ct_mem st1 = ct_mem st) /\
+      (forall e, ct_rfind k (ct_red st) = Some e -> t + eps < re_dead e -> ct_red st1 = ct_red st)
+  | _ => True
+  end.
+
+Fixpoint ct_steps_sat (P : ct_state -> ct_event -> ct_state -> Prop) (hm : bool) (mx : Z) (st : ct_state)
+  (evs : list ct_event) : Prop :=
+  match evs with
+  | [] => True
+  | ev :: evs' => P st ev (fst (ctc_step hm mx st ev)) /\ ct_steps_sat P hm mx (fst (ctc_step hm mx st ev)) evs'
+  end.
